@@ -229,6 +229,17 @@ class Elemwise(Blockwise):
             self._info[0], self.dtype, *self.elemwise_args, **self.kwargs
         )
 
+    def _lower(self):
+        # The operands of Elemwise are the arrays themselves, without the
+        # interleaved index tuples that Blockwise carries
+        _, arrays, changed = unify_chunks_expr(*self.args)
+        if changed:
+            n = len(self.elemwise_args)
+            operands = list(self.operands[: len(self._parameters)])
+            if self.where is not True:
+                operands[self._parameters.index("where")] = arrays[n]
+            return type(self)(*operands, *arrays[:n])
+
     @property
     def elemwise_args(self):
         return self.operands[len(self._parameters) :]
